@@ -144,6 +144,8 @@ func runC10(c *Ctx) {
 		c.Out.Oracle(cid, class == "", class, detail+" | "+strings.Join(run.Obs, " "))
 		c.Out.Tag(cid, fmt.Sprintf("nontrivial=%d", b2i(len(run.Branches) > 0)))
 		c.Out.Count(fmt.Sprintf("early-rollback.%v", early))
+		w.Eng.Exec("DELETE FROM undo_log")
+		w.Eng.DropTable(sc.Table)
 		c.Out.Count(fmt.Sprintf("branches.%d", len(run.Branches)))
 	}
 }
